@@ -87,6 +87,7 @@ class CollectionStore(object):
         self._is_force_created = False
 
     def create_index(self, index_name, index_dict):
+        self._is_force_created = True
         self.indexes[index_name] = index_dict
         if index_dict.get('expireAfterSeconds') is not None:
             self._ttl_indexes[index_name] = index_dict
@@ -120,6 +121,7 @@ class CollectionStore(object):
 
     def __setitem__(self, key, val):
         with self._rwlock.writer():
+            self._is_force_created = True
             self._documents[key] = val
 
     def __delitem__(self, key):
